@@ -111,6 +111,72 @@ def loaders_stream(ctx, count, do_model=True):
                         one(ctx, name, cfg, kind, f, lambda k, c, seq=seq: seq[k % 251], do_model)
 
 
+def special_cut_sets(ctx):
+    """symbol atoms with delimiter sets that contain characters special to regular expressions (- ^ ] \\ and friends): the
+    atoms still partition the file, so candidates are the original minus atoms"""
+    specials = [(b"(", b"-;\n"), (b"^", b"]-"), (b"\\", b"-"), (b"-", b"^]"), (b"[", b"-]\\"), (b"", b"-")]
+    datas = [b"a = f(1-2);\nb^c]d-e\\f;[g]\n", b"x-1;y-2;(z)\n", b"-^]\\-;-\n0123456789:./,+*)\n"]
+    for cut in specials:
+        for data in datas:
+            res = loaders.real_load("symbol", data, cut)
+            ctx.evaluations += 1
+            ctx.bump("special-cut-sets")
+            case = dict(splitter="symbol", data=common.enc_bytes(data), cut_before=common.enc_bytes(cut[0]), cut_after=common.enc_bytes(cut[1]))
+            if res[0] != "ok":
+                ctx.fail("original-altered", f"symbol with cut sets {cut}: load failed: {res[1]}", case)
+                continue
+            f = strat.fields(res[1])
+            if strat.content(f) != data:
+                ctx.fail("original-altered", f"symbol with cut-before={cut[0]!r} cut-after={cut[1]!r}: the loaded testcase writes {strat.content(f)!r} "
+                         f"for the file {data!r}", case)
+
+
+def interleaved_iterators(ctx):
+    """two reductions alive at the same time (an embedding tool; a strategy object created while another iterator is still
+    unconsumed): each iterator works with ITS strategy's options — in particular one configured without the experimental
+    move never re-orders atoms, whatever the other one is configured with"""
+    parts = [b"f(\n", b"x\n", b"y\n", b")\n", b"z\n"]
+    fA = (b"", parts, [True] * len(parts), b"")
+    fB = (b"", [b"{\n", b"a\n", b"}\n"], [True] * 3, b"")
+    for name, cfgA, cfgB in (("minimize-balanced", {}, {"move": True}), ("minimize-balanced", {"move": True}, {}),
+                             ("minimize", {"min": 2, "max": 2, "rep": "never"}, {}), ("minimize-around", {}, {"rep": "always"})):
+        for order, accept in (("A-first", 0), ("B-first", 0), ("A-first", 3), ("B-first", 3)):
+            stA, stB = strat.make_strategy(name, cfgA), strat.make_strategy(name, cfgB)
+            tcA, tcB = strat.testcase_from_fields("line", fA), strat.testcase_from_fields("line", fB)
+            if order == "A-first":
+                itA = stA.reduce(tcA)
+                itB = stB.reduce(tcB)
+            else:
+                itB = stB.reduce(tcB)
+                itA = stA.reduce(tcA)
+            case = dict(strategy=name, cfg=cfgA, other_cfg=cfgB, order=order, parts=enc_list(parts), interleaved=True)
+            ctx.evaluations += 1
+            ctx.bump("interleaved-iterators")
+            try:
+                k = 0
+                for attempt in itA:
+                    cand = strat.fields(attempt)
+                    if not cfgA.get("move") and not is_deletion(fA, cand):
+                        ctx.fail("not-a-deletion", f"{name} {cfgA} (another {name} {cfgB} iterator exists): candidate parts={cand[1]!r} is not the "
+                                 f"original {parts!r} minus atoms", case)
+                        break
+                    sizes_ok = True
+                    if name == "minimize" and cfgA.get("min") == 2 and len(fA[1]) - len(cand[1]) == 1 and len(cand[1]) > 2:
+                        sizes_ok = False
+                    if not sizes_ok:
+                        ctx.fail("not-a-deletion", f"{name} {cfgA}: a single-atom candidate {cand[1]!r} although min=max=2 (the other iterator's options?)", case)
+                        break
+                    itA.feedback(bool(accept) and k % accept == accept - 1)
+                    k += 1
+                    if k > 400:
+                        break
+                for attempt in itB:
+                    itB.feedback(False)
+            except Exception as exc:  # pylint: disable=broad-except
+                if not (cfgA.get("move") or cfgB.get("move")):
+                    ctx.fail("internal-error", f"{name}: {type(exc).__name__}: {exc}", case)
+
+
 def load_only(ctx, n):
     """every candidate is built from the loaded testcase: if loading alters the bytes (a splitter that drops or doubles text
     when it back-tracks), every tested file differs from the original in bytes that are not atoms.  Grammar-directed JS and
@@ -172,6 +238,8 @@ def torn_writes(ctx):
 def search(ctx):
     torn_writes(ctx)
     load_only(ctx, 1500 if ctx.thorough else 150)
+    interleaved_iterators(ctx)
+    special_cut_sets(ctx)
     sweep(ctx, 7, 2, do_model=False)
     loaders_stream(ctx, 6, do_model=False)
 
@@ -183,6 +251,9 @@ def run(ctx) -> int:
     ctx.exhaustive.append(f"every reducible/non-reducible layout up to length {L} x 3 strategies x {len(CFGS)} option settings (random verdicts)")
     loaders_stream(ctx, 12 if ctx.thorough else 8)
     torn_writes(ctx)
+    load_only(ctx, 1500 if ctx.thorough else 150)
+    interleaved_iterators(ctx)
+    special_cut_sets(ctx)
     return common.decide(ctx, proof, RULE, search=search)
 
 
